@@ -108,6 +108,25 @@ Theorem C10_gray_is_luma :
 Proof. exact gray_is_luma. Qed.
 Print Assumptions C10_gray_is_luma.
 
+(* (4') a JPEG stored in the RGB colourspace decoded to grayscale: the decompressor's own table
+   (build_rgb_y_table of jdcolor.c, entries and ONE_HALF term generated from the current source) + rgb_gray_convert
+   give, for ALL r,g,b, exactly the compressor-side luminance y_of_rgb (= the Y of rgb->ycc / rgb->gray on in-range
+   samples), for any pitch >= w, either row order, nothing else touched *)
+Theorem C10_decompress_rgb_gray_is_luma :
+  (forall p t, rgb_gray_d p t = y_of_rgb p (c0 t) (c1 t) (c2 t)) /\
+  (forall p t, (p = prec8 \/ p = prec12) -> 0 <= c0 t <= sp_max p -> 0 <= c1 t <= sp_max p -> 0 <= c2 t <= sp_max p ->
+     rgb_gray_d p t = gray_of_rgb p t /\ rgb_gray_d p t = c0 (ycc_of_rgb p t)) /\
+  (forall p w h pitch bu (img : list (list px3)) buf,
+     length img = h -> Forall (fun row => length row = w) img ->
+     Z.of_nat w <= pitch -> (Z.of_nat h - 1) * pitch + Z.of_nat w <= Z.of_nat (length buf) ->
+     let ptrs := rows pitch h bu in
+     let out := rgb_gray_convert_d p img buf ptrs in
+     unpack_gray out ptrs w = map (map (fun t => y_of_rgb p (c0 t) (c1 t) (c2 t))) img /\ length out = length buf /\
+     (forall j, 0 <= j -> (forall i, 0 <= i < Z.of_nat h -> j < i * pitch \/ i * pitch + Z.of_nat w <= j) ->
+        rd out j = rd buf j)).
+Proof. exact decompress_rgb_gray_is_luma. Qed.
+Print Assumptions C10_decompress_rgb_gray_is_luma.
+
 (* the (_JSAMPLE) cast of rgb_ycc_convert never wraps for in-range samples (8 and 12 bit), with the
    FIX() constants of the current jccolor.c *)
 Theorem C10_forward_conversion_no_wrap : forall p, p = prec8 \/ p = prec12 -> forall t,
